@@ -82,9 +82,14 @@ class FakeRandomNS:
         return FakeGen(self.streams, sid)
 
 
+RVS_LOG = []
+
+
 class FakeMultinomial:
     @staticmethod
     def rvs(n, p, size=None, random_state=None):
+        RVS_LOG.append((int(n), [float(Sym.of(x).cval()) if isinstance(x, Sym) else float(x) for x in flat(p)] if not nd.has_sym(p) or all(Sym.of(x).is_const() for x in flat(p)) else None,
+                        getattr(random_state, "sid", "G")))
         k = len(list(flat(p)))
         cs = random_state.multinomial_counts(n, k)
         return SymNd(cs) if any(isinstance(c_, Sym) for c_ in cs) else np.array(cs)
@@ -353,6 +358,52 @@ def ob_sizes(entry):
                                                          "numpy.random: streams of uninterpreted draws"])
 
 
+def ob_entry_points(tomo):
+    """the three sampling entry points of a tomography class (generate_empi_dist for every schedule index, generate_empi_dists,
+    generate_empi_dists_sequence) with an integer seed: every multinomial draw is made with the requested sample size and with the
+    probability distribution OF ITS SCHEDULE (as predicted by calc_prob_dist), all draws come from the seed's stream, and the global stream
+    is neither consumed nor re-seeded"""
+    def run(I):
+        import objlib
+        out = []
+        kw = {"m": 3} if tomo in ("povmt", "qmpt") else {}
+        truth = {"qst": lambda: tomo_lib.states("Q1")[4], "povmt": lambda: tomo_lib.povms("Q1")[3],
+                 "qpt": lambda: objlib.gates("Q1")["rx"], "qmpt": lambda: objlib.mprocesses("Q1")["trine3"]}[tomo]()
+        with prng_stub() as st:
+            qt, _ = tomo_lib.build(tomo, "Q1", **kw)
+            S = qt.num_schedules
+            want = [np.asarray(nd.to_concrete(qt.calc_prob_dist(truth, j)), dtype=float) for j in range(S)]
+            st.ns.random(2)
+
+            def calls(fn):
+                g0 = st.streams.counters.get(st.ns.gid, 0)
+                n0 = len(RVS_LOG)
+                res = fn()
+                g1 = st.streams.counters.get(st.ns.gid, 0)
+                return res, RVS_LOG[n0:], g0 == g1
+            for j in range(S):
+                res, log, quiet_g = calls(lambda: qt.generate_empi_dist(j, truth, 9, 7))
+                out.append(Holds(f"generate_empi_dist({j}): one draw of the requested size", len(log) == 1 and log[0][0] == 9))
+                ok = len(log) == 1 and log[0][1] is not None and len(log[0][1]) == len(want[j]) and bool(np.allclose(log[0][1], want[j], atol=1e-9))
+                out.append(Holds(f"generate_empi_dist({j}): drawn from the distribution of schedule {j}", ok))
+                out.append(Holds(f"generate_empi_dist({j}): the seed's stream, global stream untouched", all(l[2] == "seed:7" for l in log) and quiet_g))
+            res, log, quiet_g = calls(lambda: qt.generate_empi_dists(truth, 6, 7))
+            out.append(Holds("generate_empi_dists: one draw per schedule, requested size", len(log) == S and all(l[0] == 6 for l in log)))
+            out.append(Holds("generate_empi_dists: draw j from the distribution of schedule j",
+                             len(log) == S and all(l[1] is not None and len(l[1]) == len(w) and bool(np.allclose(l[1], w, atol=1e-9)) for l, w in zip(log, want))))
+            out.append(Holds("generate_empi_dists: the seed's stream, global stream untouched", all(l[2] == "seed:7" for l in log) and quiet_g))
+            res, log, quiet_g = calls(lambda: qt.generate_empi_dists_sequence(truth, [3, 5], 7))
+            out.append(Holds("generate_empi_dists_sequence: the seed's stream, global stream untouched", bool(log) and all(l[2] == "seed:7" for l in log) and quiet_g))
+            per = {}
+            for l in log:
+                per.setdefault(tuple(np.round(l[1], 9)) if l[1] is not None else None, []).append(l[0])
+            out.append(Holds("generate_empi_dists_sequence: every schedule's distribution is sampled with the requested sizes",
+                             all(sorted(per.get(tuple(np.round(w, 9)), [])) [:2] == [3, 5] or len(per.get(tuple(np.round(w, 9)), [])) >= 2 for w in want)))
+        return out
+    return FnOb([], run, max_paths=50, tv_points=0, stubs=["scipy.stats.multinomial.rvs: contract stub recording (n, p, stream)",
+                                                         "numpy.random: streams of uninterpreted draws"])
+
+
 def first_call_log(st, entry, DG, EX, p):
     """the (stream, draw number) pairs consumed by one call with an integer seed"""
     n0 = len(st.streams.log)
@@ -414,6 +465,7 @@ def obligations(tier):
     out += specs("C14.empi", [{"m": m, "L": L, "K": K} for m, L, K in tiers(tier, [(2, 3, 1), (2, 3, 2), (3, 2, 2)], [(2, 3, 1), (2, 3, 2), (3, 2, 2), (2, 4, 2), (3, 3, 2), (2, 5, 1)])], ob_empi, 5)
     out += specs("C14.multinomial", [{"n": 3, "nums": [5, 10]}, {"n": 2, "nums": [1]}, {"n": 4, "nums": [3, 7, 20]}], ob_multinomial, 2)
     out += specs("C14.sizes", [{"entry": e} for e in tiers(tier, ("experiment", "qst", "povmt"), ("experiment", "qst", "povmt", "qpt", "qmpt"))], ob_sizes, 3)
+    out += specs("C14.entry_points", [{"tomo": t} for t in ("qst", "povmt", "qpt", "qmpt")], ob_entry_points, 3)
     out += specs("C14.seed_flow", [{"entry": e} for e in ("empi_seq", "empi_seqs", "experiment", "qst", "qst_seeded")], ob_seed_flow, 3)
     return out
 
